@@ -349,6 +349,7 @@ let dispatch (f : Stdlib.String.t list) : Stdlib.String.t =
   | ["dkim.model_hrelax"; b] -> hex (canon_headers_relaxed (unhex b))
   | ["dkim.model_sig_field"; e; sg] -> hex (sig_field (unhex e) (unhex sg))
   | ["spec.dkim_body"; c; b] -> hex (spec_body (c = "r") (unhex b))
+  | ["dkim.certify"; b] -> if certify (unhex b) then "1" else "0"
   | ["spec.dkim_field"; b] -> hex (spec_field_relaxed (unhex b))
   | ["spec.dkim_delete_b"; b] -> hex (delete_b (unhex b))
   | ["tls.run"; mode; peer; prm; cr; hello; script; from; tos; msg] ->
